@@ -56,11 +56,15 @@ type verifGhost struct {
 
 func (g *verifGhost) sampleFn(ctx context.Context, h *header.ExtendedHeader) error {
 	g.calls++
-	switch nd.Choice(3, "outcome") {
+	outcomes := 2 // quick: ok | error; thorough adds outside-window
+	if nd.Thorough() {
+		outcomes = 3
+	}
+	switch nd.Choice(outcomes, "outcome") {
 	case 0:
 		g.sampled = append(g.sampled, h.Height())
 		return nil
-	case 1:
+	case 2:
 		g.sampled = append(g.sampled, h.Height())
 		return availability.ErrOutsideSamplingWindow
 	}
@@ -83,13 +87,13 @@ func (g *verifGhost) covered(cp checkpoint, h uint64) bool {
 	return c
 }
 
-func verifParams() Parameters {
-	limit := 1
+func verifParams(limit int) Parameters {
+	rng := uint64(2) // quick: fixed sampling range 2; thorough: 1..2
 	if nd.Thorough() {
-		limit = 1 + nd.Choice(2, "limit")
+		rng = uint64(1 + nd.Choice(2, "range"))
 	}
 	return Parameters{
-		SamplingRange:    uint64(1 + nd.Choice(2, "range")),
+		SamplingRange:    rng,
 		ConcurrencyLimit: limit,
 		SampleTimeout:    time.Minute,
 	}
@@ -98,26 +102,51 @@ func verifParams() Parameters {
 // Every checkpoint the coordinator hands out (background store, Stop) covers
 // every height in [start, head] that has not been sampled: no height is lost
 // across a restart, whatever was in flight when the checkpoint was taken.
+// Concurrency limit 1: catch-up and newest-head work are serialised.
 //
 //verif:opts nodeadlock preempt=1 threads=8 maxwall=1500 cover=checkpointed,newhead
 func VerifH_C04_CheckpointCoversEverything() {
-	start := nd.U64("start")
-	nd.Assume(start >= 1 && start < 1<<62)
 	heads := 2
 	if nd.Thorough() {
 		heads = 3
 	}
+	verifCheckpointScenario(1, heads)
+}
+
+// Same with concurrency limit 2 (a catch-up job and a newest-head job run side
+// by side), starting caught up (quick) or anywhere (thorough).
+//
+//verif:opts nodeadlock preempt=1 threads=8 maxwall=1500 cover=checkpointed,newhead
+func VerifH_C04_CheckpointCoversEverythingParallel() {
+	heads := 1
+	if nd.Thorough() {
+		heads = 3
+	}
+	verifCheckpointScenario(2, heads)
+}
+
+func verifCheckpointScenario(limit, heads int) {
+	start := nd.U64("start")
+	nd.Assume(start >= 1 && start < 1<<62)
 	head := start - 1 + uint64(nd.Choice(heads, "head0"))
 	g := &verifGhost{}
-	sc := newSamplingCoordinator(verifParams(), verifGetter{}, g.sampleFn)
+	sc := newSamplingCoordinator(verifParams(limit), verifGetter{}, g.sampleFn)
 	ctx, cancel := context.WithCancel(context.Background())
 	defer cancel()
 	go sc.run(ctx, checkpoint{SampleFrom: start, NetworkHead: head})
 
 	events := 2
 	for i := 0; i < events; i++ {
-		if nd.Choice(2, "event") == 0 {
-			head++
+		// quick tier with limit 2: the fixed history "new head, then a
+		// checkpoint"; otherwise every history of two events
+		newHead := i == 0
+		if limit == 1 || nd.Thorough() {
+			newHead = nd.Choice(2, "event") == 0
+		}
+		if newHead {
+			// the next head, or one announced with a gap (heads in between
+			// were never announced)
+			head += 1 + uint64(nd.Choice(2, "headGap"))
 			nd.Cover("newhead")
 			sc.listen(ctx, verifHeader(head))
 			continue
